@@ -47,6 +47,14 @@ def cases(tier):
         del members[0]['rng_replay_of']
         cfg = {'scenario': 'batch', 'n': n, 'x': x, 'members': members, 'verify_each': True, 'actions': ['VerifyOnly', 'RecoverAndVerify', 'RecoverOnly']}
         out.append({'cfg': cfg, 'name': 'n%d x%d cap%d proof honest, blinding components %s zero' % (n, x, cap, zc), 'honest': True})
+    # several views of ONE proof listed in ONE batch (a wallet trying candidate seeds): each result is what that view gives on its own
+    for (n, x, cap) in [(8, 1, 1), (4, 2, 2)]:
+        mkv = lambda ts: dict({'m': 1, 'cap': cap, 'seeded': True, 'name_idx': 0, 'rng_replay_of': 0}, **({'tamper_statement': ts} if ts else {}))
+        for views in (['seed', 'other'], ['other', 'seed'], ['seed', 'other', 'none', 'seed'], ['other', 'none', 'seed', 'other'], ['seed', 'seed']):
+            members = [mkv({'seed': None, 'other': {'op': 'seed_other'}, 'none': {'op': 'seed_none'}}[vw]) for vw in views]
+            members[0] = {k: v for k, v in members[0].items() if k != 'rng_replay_of'}
+            cfg = {'scenario': 'batch', 'n': n, 'x': x, 'members': members, 'actions': ['VerifyOnly', 'RecoverAndVerify', 'RecoverOnly']}
+            out.append({'cfg': cfg, 'name': 'n%d x%d one proof listed as views %s in one batch' % (n, x, views), 'views': views})
     # batches mixing members with and without a seed, in every order: the two recovering modes return the same masks, result by result
     import itertools
     kinds = [{'m': 1, 'cap': 2, 'seeded': False}, {'m': 1, 'cap': 2, 'seeded': True}, {'m': 2, 'cap': 2, 'seeded': False}]
@@ -87,10 +95,49 @@ def analyse_batch(ctx, case, run, S):
                           cfg=cfg, key='C10:recover-only-differs', pred='recover_only_differs')
 
 
+def analyse_views(ctx, case, run, S):
+    cfg = case['cfg']
+    if not ctx.expect(all(p['result'] == 'ok' for p in run.out['prove']) and run.out.get('verify'), 'C10:prove', 'honest prover failed (%s)' % case['name'], cfg, 'honest_rejected'):
+        return
+    lay = [p['proof']['pieces'] for p in run.out['prove']]
+    if any(l != lay[0] for l in lay):
+        raise Inconclusive('scenario construction: the views do not share one proof')
+    blind = run.out['members'][0]['blindings'][0]
+    side = run.side_conditions()
+    for v in run.out['verify']:
+        if not ctx.expect(v['result'] == 'ok', 'C10:views-batch', '%s: %s returned %s' % (case['name'], v['action'], v['result']), cfg, 'views_batch_wrong'):
+            continue
+        if v['action'] == 'VerifyOnly':
+            continue
+        if not ctx.expect(len(v['masks']) == len(case['views']), 'C10:views-batch', '%s: %d results for %d members' % (case['name'], len(v['masks']), len(case['views'])), cfg, 'views_batch_wrong'):
+            continue
+        for pos, vw in enumerate(case['views']):
+            got = v['masks'][pos]
+            if vw == 'none':
+                ctx.expect(got is None, 'C10:views-batch', '%s: a mask for the view without a seed (position %d, %s)' % (case['name'], pos, v['action']), cfg, 'views_batch_wrong')
+                continue
+            if not ctx.expect(got is not None and len(got) == len(blind), 'C10:views-batch', '%s: no mask for view %s at position %d (%s)' % (case['name'], vw, pos, v['action']), cfg, 'views_batch_wrong'):
+                continue
+            for kk, (g, w) in enumerate(zip(got, blind)):
+                diff = (run.norm.frac(g) - run.norm.frac(w)).num
+                S.sync_terms(run.T)
+                if vw == 'seed':
+                    if run.T.cval(diff) == 0:
+                        ctx.D.record('syntactically-identical', 'mask', 'unsat', 0.0, 'unsat')
+                        continue
+                    if ctx.expect(run.core['shadows'][g] == run.core['shadows'][w], 'C10:views-batch', '%s: the prover\'s seed at position %d does not recover the mask component %d (%s)' % (case['name'], pos, kk, v['action']), cfg, 'views_batch_wrong'):
+                        ctx.solve(S, 'valid-eq', '%s: mask[%d][%d] == r_%d (%s)' % (case['name'], pos, kk, kk, v['action']), side + ['(not (= t%d 0.0))' % diff], cfg=cfg, key='C10:views-batch', pred='views_batch_wrong')
+                else:
+                    if ctx.expect(run.core['shadows'][g] != run.core['shadows'][w], 'C10:views-batch', '%s: another seed at position %d recovered the true mask component %d (%s)' % (case['name'], pos, kk, v['action']), cfg, 'views_batch_wrong'):
+                        ctx.solve_nonzero(S, run, '%s: recovered(other seed)[%d][%d] - r_%d' % (case['name'], pos, kk, kk), diff, side, cfg=cfg, key='C10:views-batch', pred='views_batch_wrong')
+
+
 def analyse(ctx, case, run, S):
     cfg = case['cfg']
     if case.get('batch'):
         return analyse_batch(ctx, case, run, S)
+    if case.get('views'):
+        return analyse_views(ctx, case, run, S)
     if not ctx.expect(all(p['result'] == 'ok' for p in run.out['prove']) and run.out.get('verify_each'), 'C10:prove', 'honest prover failed (%s)' % case['name'], cfg, 'honest_rejected'):
         return
     # the three members must carry the very same proof (same variables, replayed RNG stream)
